@@ -81,9 +81,11 @@ def minimize(
     config = TreeConfig(level_config, gsc, sprout_condition, options=options)
     hms_tree = DemeTree(config)
     hms_tree.run()
+    # Evaluations refused by the cutoff wrapper never reach `fun`: report the calls actually made.
+    nfev = wrapped_function_problem.n_evaluations if maxfun else hms_tree.n_evaluations
     return OptimizeResult(
         x=hms_tree.best_individual.genome,
-        nfev=hms_tree.n_evaluations,
+        nfev=nfev,
         fun=hms_tree.best_individual.fitness,
         nit=hms_tree.metaepoch_count,
     )
